@@ -18,37 +18,64 @@ def denote (base : Nat) : List Nat → Nat
   | [] => 0
   | d :: ds => d * base ^ ds.length + denote base ds
 
-/-- correctly rounded (nearest, ties to even) binary64 of the positive rational num/den -/
-def ratToF64 (num den : Nat) : UInt64 :=
-  if num == 0 || den == 0 then 0 else
-  -- scale so that the quotient has at least 55 significant bits, then round with a sticky bit
-  let ln := bitLen num
-  let ld := bitLen den
-  let shift : Int := 55 + (ld : Int) - (ln : Int) + 1        -- q = num·2^shift / den has 55..57 bits
-  let (n2, d2) : Nat × Nat := if shift ≥ 0 then (num * 2 ^ shift.toNat, den) else (num, den * 2 ^ (-shift).toNat)
-  let q := n2 / d2
-  let sticky := if n2 % d2 == 0 then 0 else 1
-  -- value ≈ (q + sticky·ε) · 2^(-shift)
+/-- round N / (D·K) to the nearest integer, ties to even, from the quotient q = N / D, a sticky bit
+    (is N / D exact?) and the low part of q -/
+def roundHalfEven (N D K : Nat) : Nat :=
+  let q := N / D
+  let sticky := N % D ≠ 0
+  let m := q / K
+  let r := q % K
+  let half := K / 2
+  if r > half ∨ (r = half ∧ (sticky ∨ m % 2 = 1)) then m + 1 else m
+
+/-- num/den scaled by a power of two so that the quotient has at least 55 significant bits:
+    n2 / d2 = (num / den) · 2^shift -/
+structure Scaled where
+  n2 : Nat
+  d2 : Nat
+  shift : Int
+deriving Repr
+
+def scaleRat (num den : Nat) : Scaled :=
+  let shift : Int := 55 + (bitLen den : Int) - (bitLen num : Int) + 1
+  if shift ≥ 0 then ⟨num * 2 ^ shift.toNat, den, shift⟩ else ⟨num, den * 2 ^ (-shift).toNat, shift⟩
+
+/-- the outcome of rounding a positive rational to binary64, before it is written as bits -/
+inductive Rounded where
+  | inf
+  | tiny (up : Bool)                       -- below the smallest subnormal: 0 or 2^-1074
+  | fin (m : Nat) (e2 : Int) (p : Nat)     -- mantissa m of (at most) p bits, e2 = exponent of the leading bit of the exact value;
+                                           -- the value is m · 2^(e2 + 1 - p)
+deriving Repr, DecidableEq
+
+def ratRound (num den : Nat) : Rounded :=
+  let sc := scaleRat num den
+  let q := sc.n2 / sc.d2
   let lq := bitLen q
-  let e2 : Int := (lq : Int) - 1 - shift                        -- exponent of the leading bit
-  if e2 > 1023 then 0x7ff0000000000000 else
+  let e2 : Int := (lq : Int) - 1 - sc.shift                    -- exponent of the leading bit
+  if e2 > 1023 then .inf else
   -- number of mantissa bits available (53 for normal numbers, fewer for subnormals)
   let p : Int := if e2 ≥ -1022 then 53 else 53 - (-1022 - e2)
   if p ≤ 0 then
     -- below half of the smallest subnormal rounds to 0, above to the smallest subnormal
-    (if p == 0 && (q > 2 ^ (lq - 1) || sticky == 1) then 1 else 0)
+    .tiny (p == 0 && (q > 2 ^ (lq - 1) || sc.n2 % sc.d2 != 0))
   else
     let drop := lq - p.toNat                                     -- bits to discard (lq ≥ 55 > p)
-    let m := q / 2 ^ drop
-    let r := q % 2 ^ drop
-    let half := 2 ^ (drop - 1)
-    let up := r > half || (r == half && (sticky == 1 || m % 2 == 1))
-    let m' := if up then m + 1 else m
+    .fin (roundHalfEven sc.n2 sc.d2 (2 ^ drop)) e2 p.toNat
+
+def encodeF64 : Rounded → UInt64
+  | .inf => 0x7ff0000000000000
+  | .tiny up => if up then 1 else 0
+  | .fin m' e2 _ =>
     if e2 ≥ -1022 then
       let (m'', e3) := if m' == 2 ^ 53 then (2 ^ 52, e2 + 1) else (m', e2)
       if e3 > 1023 then 0x7ff0000000000000 else
       UInt64.ofNat ((e3 + 1023).toNat * 2 ^ 52 + (m'' - 2 ^ 52))
     else UInt64.ofNat m'      -- subnormal (a carry into 2^52 yields the smallest normal number by itself)
+
+/-- correctly rounded (nearest, ties to even) binary64 of the positive rational num/den -/
+def ratToF64 (num den : Nat) : UInt64 :=
+  if num == 0 || den == 0 then 0 else encodeF64 (ratRound num den)
 
 inductive Kindish where
   | int (k : IKind) | f32 | f64
